@@ -4,6 +4,7 @@ package main
 // modular calls and obligation generation.
 
 import (
+	"context"
 	"fmt"
 	"go/constant"
 	"go/token"
@@ -694,6 +695,14 @@ func (ex *Exec) runTop(fn *ssa.Function) {
 	ex.execBlock(f, st, fn.Blocks[0], nil)
 }
 
+// feasible asks the solver whether the current path condition is satisfiable (unknown counts
+// as feasible). Used to prune unrolled loops whose trip count is bounded only semantically.
+func (ex *Exec) feasible(st *State) bool {
+	o := &Obligation{Goal: "false", Decls: ex.decls, Facts: st.facts}
+	st1, _ := runOne(solvers[1], obligationScript(o, false, false), 2000, context.Background())
+	return st1 != "unsat"
+}
+
 func (ex *Exec) cover(f *frame, st *State, kind, desc string) {
 	o := &Obligation{Fn: f.key, Kind: kind, Name: f.key + "#" + kind, Goal: "false", Desc: desc, Decls: ex.decls,
 		Facts: st.facts[:len(st.facts):len(st.facts)], Entry: ex.snap}
@@ -713,6 +722,10 @@ func (ex *Exec) execBlock(f *frame, st *State, b *ssa.BasicBlock, from *ssa.Basi
 		ls := f.loopSpec(li)
 		if ls != nil && ls.Unroll || f.ex.prog.forceUnroll[f.key] || ex.initMode {
 			st.iters[b]++
+			if st.iters[b] > 4 && !ex.initMode && !ex.feasible(st) {
+				// the unrolled path has become infeasible: prune it
+				return
+			}
 			if st.iters[b] > 300 {
 				ex.aborted = fmt.Sprintf("%s: unrolled loop %d exceeded 300 iterations", f.key, li.ordinal)
 				return
